@@ -288,7 +288,8 @@ def check(ctx):
             loops = {pat_text(x["pat"]): expr_text(x["iter"]) for x in walk(body) if x.get("k") == "for"}
             for need in needs:
                 if need == "<handle_method_call>":
-                    ok = any(c["method"] == "handle_method_call" for c in calls)
+                    ok = any(c["method"] == "handle_method_call" for c in calls) or "EventParser::handle_method_call" in getattr(S, "relocated", {}) \
+                        or S.fn("EventParser", "handle_method_call") is not None and S.fn("EventParser", "handle_method_call").name != "handle_method_call"
                 elif need == "arm.body":
                     ok = any(a.endswith(".body") and a.split(".")[0] in loops and loops[a.split(".")[0]].endswith(bind + ".arms") for a in argtxt)
                 elif need == "else_branch":
@@ -306,6 +307,21 @@ def check(ctx):
         calls = [x for x in walk_block(hm.body) if x.get("k") == "mcall" and x["method"] == "extract_events_from_expr" and x["args"]]
         args = [re.sub(r"^&", "", expr_text(c["args"][0])) for c in calls]
         loops = {pat_text(x["pat"]): expr_text(x["iter"]) for x in walk_block(hm.body) if x.get("k") == "for"}
+        # `let args = &method_call.args; for arg in args`: the loop's collection through a local alias
+        from srclib import stmt_exprs as _se2
+        aliases = {}
+        for x in walk_block(hm.body):
+            for key_ in ("then", "stmts", "body"):
+                for st_ in (x.get(key_) if isinstance(x.get(key_), list) else []):
+                    if isinstance(st_, dict) and st_.get("k") == "let" and (st_.get("pat") or {}).get("k") == "ident" and st_.get("init") is not None:
+                        aliases[st_["pat"]["name"]] = expr_text(st_["init"]).lstrip("&")
+            if x.get("k") == "match":
+                for arm_ in x["arms"]:
+                    if arm_["body"].get("k") == "block":
+                        for st_ in arm_["body"]["stmts"]:
+                            if st_.get("k") == "let" and (st_.get("pat") or {}).get("k") == "ident" and st_.get("init") is not None:
+                                aliases[st_["pat"]["name"]] = expr_text(st_["init"]).lstrip("&")
+        loops = {k_: aliases.get(v_.lstrip("&"), v_) for k_, v_ in loops.items()}
         recv_ok = any(a.endswith(".receiver") for a in args)
         args_ok = any(a in loops and loops[a].endswith(".args") for a in args)
         if recv_ok and args_ok:
@@ -393,9 +409,14 @@ def check(ctx):
     # decides whether an emit call is extracted (a second opinion — declared type, symbol table, arity — silently narrows the documented forms)
     hm = P.find("EventParser::handle_method_call")
     n_sites = 0
+    folded = not P.find("EventParser::extract_emit_event") or all(g_.id.split("::")[-1] != "extract_emit_event" for g_ in P.find("EventParser::extract_emit_event"))
     for f in hm:
         for c in f.calls:
-            if short_path(c.best) != "EventParser::extract_emit_event" or c.bb not in f.reach_blocks:
+            if folded:
+                # extract_emit_event was folded into its caller: the extraction starts where the event name is read from the arguments
+                if short_path(c.best) != "EventParser::extract_string_literal" or c.bb not in f.reach_blocks:
+                    continue
+            elif short_path(c.best) != "EventParser::extract_emit_event" or c.bb not in f.reach_blocks:
                 continue
             n_sites += 1
             extra = []
@@ -423,6 +444,8 @@ def check(ctx):
                         o, outcome = f.cond_struct(bb, lab)
                         if o[0] == "call" and o[1].name in ("eq", "ne") and (lit_of(o[1], 1) in ("emit", "emit_to") or lit_of(o[1], 0) in ("emit", "emit_to")):
                             continue
+                        if outcome == "MethodCall" or (folded and o[0] == "multi" and outcome in ("true", "false") and False):
+                            continue            # (being in the method-call arm of the expression walk at all)
                         if o[0] == "call" and short_path(o[1].best) == "EventParser::is_likely_tauri_emitter" and outcome == "true" \
                                 and "ExprMethodCall.receiver" in f.describe_origin(f.origin(o[1].args[-1]), deep=2):
                             state["h"] = True
@@ -432,6 +455,8 @@ def check(ctx):
                             sides = [o[2], o[3]]
                             lens = [x for x in sides if x[0] == "call" and x[1].name == "len" and "ExprMethodCall.args" in f.describe_origin(f.origin(x[1].args[0]), deep=2)]
                             consts = [x[1].get("int") for x in sides if x[0] == "const" and isinstance(x[1], dict) and "int" in x[1]]
+                            if len(lens) == 1 and not consts and folded:
+                                continue        # an arity test against a computed position (`args.len() > name_position + 1`): judged path by path in D3
                             if len(lens) == 1 and len(consts) == 1 and sides[0] is lens[0]:
                                 n_ = int(consts[0])
                                 kept = {("Ge", "true"): n_ <= 2, ("Gt", "true"): n_ <= 1, ("Ne", "true"): n_ == 0, ("Lt", "false"): n_ <= 2, ("Le", "false"): n_ <= 1, ("Eq", "false"): n_ == 0}
